@@ -12,6 +12,8 @@ import (
 	"fmt"
 	"io"
 	"os"
+	"runtime"
+	"runtime/debug"
 	"strconv"
 	"regexp"
 	"strings"
@@ -22,6 +24,7 @@ import (
 	"github.com/ozontech/seq-db/conf"
 	"github.com/ozontech/seq-db/consts"
 	"github.com/ozontech/seq-db/disk"
+	"github.com/ozontech/seq-db/frac"
 	"github.com/ozontech/seq-db/fracmanager"
 	pb "github.com/ozontech/seq-db/pkg/storeapi"
 	"github.com/ozontech/seq-db/seq"
@@ -57,6 +60,8 @@ var c04Corpora = []c04Corpus{
 	{"single-doc-sealed", []c04Frac{{[]c04Doc{{1000, 5, 17}}, true}}, false},
 	{"single-doc-active", []c04Frac{{[]c04Doc{{1000, 5, 17}}, false}}, false},
 	{"equal-mids-sealed", []c04Frac{{[]c04Doc{{1000, 5, 10}, {1000, 7, 20}, {1000, 9, 30}, {1001, 1, 5}}, true}}, false},
+	// two fractions sealed one after the other in one process, each with several doc blocks (64-byte blocks)
+	{"two-sealed-multiblock", []c04Frac{{[]c04Doc{{1000, 5, 70}, {1001, 5, 80}, {1002, 5, 90}}, true}, {[]c04Doc{{1003, 5, 100}, {1004, 5, 120}, {1005, 5, 65}, {1006, 5, 75}}, true}}, false},
 	// six documents of one millisecond: with the scaled constants (4 IDs per block) the run crosses an ID-block border
 	{"equal-mids-two-id-blocks-sealed", []c04Frac{{[]c04Doc{{1000, 5, 10}, {1000, 7, 20}, {1000, 9, 30}, {1000, 3, 5}, {1000, 11, 8}, {1000, 1, 14}}, true}}, false},
 	// recent documents, sparse minutes: the oldest one is 30 s off the wall-clock minute, the others lie
@@ -92,8 +97,12 @@ func c04Body(d c04Doc) string {
 	if d.Size <= 2 {
 		return "{}"
 	}
+	// incompressible padding: compressed doc blocks of different documents then have different sizes, so
+	// block offsets of two fractions differ (an offset table leaking between fractions is visible)
+	x := uint32(d.MID*2654435761 + d.RID*40503 + 12345)
 	for len(s)+2 < d.Size {
-		s += "x"
+		x = x*1664525 + 1013904223
+		s += string(rune('a' + (x>>24)%26))
 	}
 	return s + `"}`
 }
@@ -151,9 +160,13 @@ func c04GetStore(ci int) *c04Store {
 	conf.IndexWorkers = 1
 	conf.FetchWorkers = 2
 	conf.ReaderWorkers = 2
+	// no GC while the corpus is built: two collections would empty the sync.Pools between two seals and
+	// hide state that leaks through pooled objects (the sealer allocates 32 MiB buffers, so GCs are frequent)
+	defer debug.SetGCPercent(debug.SetGCPercent(-1))
 	dir := vfrac.MkTmp("c04")
 	st, err := storeapi.NewStore(context.Background(), storeapi.StoreConfig{
-		FracManager: fracmanager.Config{DataDir: dir, FracSize: 100 * consts.MB, TotalSize: 1000 * consts.MB, CacheSize: 10 * consts.MB, MaintenanceDelay: time.Hour},
+		FracManager: fracmanager.Config{DataDir: dir, FracSize: 100 * consts.MB, TotalSize: 1000 * consts.MB, CacheSize: 10 * consts.MB, MaintenanceDelay: time.Hour,
+			SealParams: frac.SealParams{DocBlockSize: 64}}, // several doc blocks per sealed fraction
 		API:         storeapi.APIConfig{StoreMode: storeapi.StoreModeCold, Search: storeapi.SearchConfig{WorkersCount: 2, FractionsPerIteration: 2}},
 	}, c04MP{})
 	if err != nil {
@@ -182,6 +195,9 @@ func c04GetStore(ci int) *c04Store {
 
 func c04Handle(raw json.RawMessage) any {
 	c04Init()
+	// one P per store process: sync.Pool then hands an object back to the next user deterministically, so
+	// state that leaks through pooled objects between two operations (two seals, two fetches) shows up
+	runtime.GOMAXPROCS(1)
 	var job c04Job
 	if err := json.Unmarshal(raw, &job); err != nil {
 		return c04Answer{Err: "bad job: " + err.Error()}
@@ -572,7 +588,7 @@ func TestVerifC04(t *testing.T) {
 	}
 	ev := r.Get("evaluations")
 	r.Finish(t, "model_checking",
-		fmt.Sprintf("9 corpora, built with the scaled block constants of the `small` overlay (4 IDs per block) (active / sealed / overlapping fractions / equal MIDs within one and across two ID blocks / a sealed fraction of recent documents in sparse minutes, which has a minute occupancy map; doc sizes 2..200 B); every list of <=%d distinct IDs over {present IDs} + {absent IDs at every border: (From-1), (From,minRID-1), (From,minRID+1), between, (To,maxRID+1), (To+1,0), 0, max}; hints {none,right,wrong(mixed),unknown}; via Fetcher.FetchDocs and streaming GrpcV1.Fetch; plus lists of 1001/1500/2500 IDs with 0..3 present documents at start/middle/chunk end/end. Stores live in worker subprocesses; a dying or hanging store is a violation after 3 reproductions. non-trivial = a present document at a position > 0 or a large list", maxLen),
+		fmt.Sprintf("10 corpora (sealed fractions have several 64-byte doc blocks; one corpus seals two multi-block fractions one after the other), built with the scaled block constants of the `small` overlay (4 IDs per block) (active / sealed / overlapping fractions / equal MIDs within one and across two ID blocks / a sealed fraction of recent documents in sparse minutes, which has a minute occupancy map; doc sizes 2..200 B); every list of <=%d distinct IDs over {present IDs} + {absent IDs at every border: (From-1), (From,minRID-1), (From,minRID+1), between, (To,maxRID+1), (To+1,0), 0, max}; hints {none,right,wrong(mixed),unknown}; via Fetcher.FetchDocs and streaming GrpcV1.Fetch; plus lists of 1001/1500/2500 IDs with 0..3 present documents at start/middle/chunk end/end. Stores live in worker subprocesses; a dying or hanging store is a violation after 3 reproductions. non-trivial = a present document at a position > 0 or a large list", maxLen),
 		map[string]any{
 			"states":                        len(c04Corpora),
 			"transitions":                   ev,
